@@ -9,6 +9,7 @@ import (
 	"fmt"
 	"io"
 	"os"
+	"path/filepath"
 	"strings"
 	"syscall"
 	"time"
@@ -161,7 +162,26 @@ func (closer) Close() error { return nil }
 func c04RunBatcher(in c04In, rd *scriptReader) (out c04Out) {
 	var b *batchers.Batcher
 	rd.soft = true
-	if in.Batcher == 1 {
+	if in.Batcher == 3 {
+		// a regular file holding the stream, through OpenFilesToChan (which picks the scanner's buffer itself):
+		// one read delivers a file shorter than the buffer, the next one is the end
+		work := os.Getenv("VERIF_WORK")
+		if work == "" {
+			work = os.TempDir()
+		}
+		dir, err := os.MkdirTemp(work, "c04file")
+		if err != nil {
+			return c04Out{Completed: false, Note: err.Error()}
+		}
+		defer os.RemoveAll(dir)
+		p := filepath.Join(dir, "in.log")
+		os.WriteFile(p, rd.stream, 0o644)
+		names := make(chan string, 1)
+		names <- p
+		close(names)
+		b = batchers.OpenFilesToChan(names, false, 1, in.BatchSize, 1+in.BatchSize%3)
+		rd.delivered = rd.stream
+	} else if in.Batcher == 1 {
 		b = batchers.VerifSyncReader("src", rd, in.BatchSize, 1+in.BatchSize%3)
 	} else {
 		b = batchers.OpenReaderToChan("src", closer{rd}, in.BatchSize, 1+in.BatchSize%3)
@@ -497,6 +517,14 @@ func c04Gen(r *Rng, n int, tier string) []Case {
 			// the same stream and script through the batchers' loops (their buffer is ReadAheadBufferSize)
 			in.Buffered, in.NoHandler = false, false
 			in.Batcher, in.BatchSize, in.BufSize = 1+r.Intn(2), Pick(r, []int{1, 2, 3, 7, 1000}), batchers.ReadAheadBufferSize
+			if r.Chance(1, 4) { // ... or as a regular file (empty, a few bytes, a few lines)
+				in.Batcher = 3
+				if r.Chance(1, 3) {
+					stream = stream[:r.Intn(4)%(len(stream)+1)]
+					in.Stream = hex.EncodeToString(stream)
+				}
+				in.Script = []c04Step{{len(stream), 0}}
+			}
 		}
 		cases = append(cases, c04Case(in))
 	}
